@@ -145,7 +145,7 @@ func init() {
 			"snapshot manifests are written atomically, before garbage registration; only registerSnapshot feeds the delete list; flushed/merged/synced introductions persist the manifest before close(applied); " +
 			"a failed merge removes its output on every exit; startup keeps a part only if its name parses and its metadata validates, tries snapshots newest-first; raw os file mutation stays out of the engine packages; WriteAtomic opens its temporary sibling truncated (a tmp left by a crashed attempt cannot leak its tail); on trace recovery the secondary index is told the MANIFEST's part list, not the directory scan; a segment whose metadata file exists but is empty is discarded as half-born, never handed to the parser.",
 		NotDecided: "that the state found after a crash is a prefix of acknowledged batches; kernel power-loss semantics; torn writes inside one write(2).",
-		Technique:  "CFG must-pass-through / dominance ordering rules on SSA with interprocedural definitely-calls summaries; who-may-call and field-write confinement",
+		Technique:  "CFG must-pass-through / dominance ordering rules on SSA with interprocedural definitely-calls summaries; who-may-call and field-write confinement; value-world pruning (zero-length metadata file); constant open flags; SSA def-use of the list handed to the secondary index",
 		Run:        runC04,
 	})
 }
